@@ -649,9 +649,18 @@ def rule_ms_states(ctx: Ctx):
     """The MemoryStore obligations that concern plain per-key states (add_key / set / get / del_key, growth, typecodes): what roll,
     split and time_split rely on.  The obligations about group-index maps (mapper stores, add_map / get_map / iterate_map, the index
     allocator) are not theirs: a defect there is group_by's (C04) and the store's (C14)."""
+    return _ms_states(ctx, ("MS-4",))
+
+
+def rule_ms_states_untyped(ctx: Ctx):
+    """the same without the typecode table (MS-5): for operators whose states hold objects only (scan)"""
+    return _ms_states(ctx, ("MS-4", "MS-5"))
+
+
+def _ms_states(ctx, skip):
     out = []
     for r in rule_ms(ctx):
-        if r.rule == "MS-4":
+        if r.rule in skip:
             continue
         kept = [f for f in r.findings if "mapper" not in f.construct and "_map" not in f.construct and "new_index" not in f.construct]
         dropped = len(r.findings) - len(kept)
